@@ -1,15 +1,17 @@
 """C18 — `move` maps sources injectively and never overwrites (engine A).
 
 Proof obligations: coq/Props_C18.v (mv_target injective on absolute paths; shape; existence check before
-rename AND before copy under every fault oracle; source unlinked only after a complete copy; K6 witness).
+rename AND before copy under every fault oracle — anything at the target, dangling links included, blocks the move;
+source unlinked only after a complete copy).
 Correspondence:
   (1) API level: harness `fsx mt` calls PartitionedFileGroup::move_target (through verif_api) on generated
       (DIR, path) pairs — absolute / relative, "/" alone, components with spaces, dots, non-UTF-8 bytes — and the
       component list is compared with the extracted mv_target; injectivity and the shape are re-checked on the
       implementation's own outputs.
   (2) CLI level under the shim: `fclones move DIR` with DIR outside / inside the scanned tree / relative with
-      "..", pre-populated with a colliding file, a colliding directory, a symlink to an existing file, a
-      DANGLING symlink (K6) at the targets; fault-free, with every rename failed by EXDEV (copy branch) and with a
+      "..", or registered as another mount point, pre-populated with a colliding file, a colliding directory, a symlink
+      to an existing file, a DANGLING symlink (the former K6, fixed by 041ee27: must-pass regression cases — link
+      untouched, nothing written through it, source left in place, warning) at the targets; fault-free, with every rename failed by EXDEV (copy branch) and with a
       failure at every call; trace, final tree and accounting compared with the model; a model-free oracle checks
       that nothing that existed under DIR was altered, that refused sources stay in place with a warning, and that a
       source disappears only when its complete copy exists.
@@ -187,9 +189,10 @@ def cli_oracle(c):
             elif e[0] == "L":
                 ok = e1 == e
                 t = e[1] if e[1].startswith("/") else os.path.join(os.path.dirname(p), e[1])
-                if ok and not os.path.lexists(t) and c05.bytes_follow(inv1, p) is not None:
+                if ok and c05.bytes_follow(inv0, p) is None and c05.bytes_follow(inv1, p) is not None:
+                    # regression case of the former K6 (copy branch): the link is intact but something was written THROUGH it
                     bad.append(({"kind": "dangling_symlink_at_target_written_through"},
-                                "the dangling symbolic link %s at the move target now resolves: the copy branch wrote through it to %s" % (p, t)))
+                                "the dangling symbolic link %s at the move target now resolves: the copy wrote through it to %s" % (p, t)))
             else:
                 ok = e1 is not None and e1[0] == "F" and e1[3] == e[3] and e1[1] == e[1]
             if not ok:
@@ -206,7 +209,7 @@ def cli_oracle(c):
         if a not in inv1:
             if c05.bytes_follow(inv1, tgt) != b0:
                 bad.append(({"kind": "source_deleted_without_complete_copy"}, "%s is gone but %s does not hold its bytes" % (a, tgt)))
-        if col in ("file", "dir", "link_to_file") and not killed:
+        if col in ("file", "dir", "link_to_file", "dangling", "dangling_into_dir") and not killed:
             if inv1.get(a) != inv0[a]:
                 bad.append(({"kind": "colliding_source_not_left_in_place"}, "target %s existed (%s) but the source %s changed" % (tgt, col, a)))
             if summ["warn"] == 0:
